@@ -711,10 +711,13 @@ def cells_in(e, sc, acc):
 class Gen:
     """Random well-typed, terminating programs. Every random choice goes through self.r (a random.Random)."""
 
-    def __init__(self, rng, max_depth=3, lists=True, floats=True, funcs=True, avoid=None):
+    def __init__(self, rng, max_depth=3, lists=True, floats=True, funcs=True, avoid=None, scalar_only=False):
         """avoid: predicate on cell keys (see cell_key) the generator must not produce (cells with a listed finding
         are swept by the exhaustive leg, where they are reported under their canonical key)"""
         self.avoid = avoid
+        self.scalar_only = scalar_only   # only Zahl/Kommazahl/Byte/Wahrheitswert, no Text/lists/functions/counting loops
+        if scalar_only:
+            lists = funcs = False
         self.r = rng
         self.n = 0
         self.max_depth = max_depth
@@ -823,8 +826,9 @@ class Gen:
             add(1, lambda d: self.mixed_zb(sc, d))
             add(2, lambda d: ["bin", r.choice(["LogicAnd", "LogicOr", "LogicXor"]), E("Z", d), E("Z", d)])
             add(2, lambda d: ["bin", r.choice(["Shl", "Shr"]), E("Z", d), I(r.choice([0, 1, 3, 8, 31, 62, 63])) if r.random() < 0.9 else E("Z", d)])
-            add(2, lambda d: ["un", "Len", E(r.choice(["T"] + (LISTS if self.lists else [])), d)])
-            add(3, lambda d: ["cast", E(r.choice(["B", "W", "C"]), d), "Z"])
+            if not self.scalar_only:
+                add(2, lambda d: ["un", "Len", E(r.choice(["T"] + (LISTS if self.lists else [])), d)])
+            add(3, lambda d: ["cast", E(r.choice(["B", "W"] if self.scalar_only else ["B", "W", "C"]), d), "Z"])
             if self.floats:
                 add(1, lambda d: ["cast", self.bounded_float(sc, d), "Z"])
         elif t == "K":
@@ -948,6 +952,8 @@ class Gen:
         return out
 
     def scalar_type(self):
+        if self.scalar_only:
+            return self.r.choice(["Z"] * 4 + ["B", "B", "W", "W"] + (["K", "K"] if self.floats else []))
         ts = ["Z"] * 4 + ["B", "B", "W", "W", "C", "T", "T"] + (["K", "K"] if self.floats else [])
         return self.r.choice(ts)
 
@@ -1013,7 +1019,7 @@ class Gen:
             el = self.stmts(sc.child(), r.randint(1, 2), d - 1, in_loop, fret) if r.random() < 0.6 else []
             return [["if", self.expr("W", sc, 2), th, el]]
         if x < 0.80:
-            return self.for_loop(sc, d, fret)
+            return self.while_loop(sc, d, fret) if self.scalar_only else self.for_loop(sc, d, fret)
         if x < 0.85:
             return self.while_loop(sc, d, fret)
         if x < 0.90:
@@ -1022,7 +1028,7 @@ class Gen:
             cnt = I(r.choice([0, 1, 2, 3])) if r.random() < 0.8 else ["bin", "Mod", ["un", "Abs", self.expr("Z", sc, 1)], I(4)]
             return [["repeat", cnt, body]]
         if x < 0.95:
-            return self.foreach_loop(sc, d, fret)
+            return self.while_loop(sc, d, fret) if self.scalar_only else self.foreach_loop(sc, d, fret)
         if in_loop and x < 0.98:
             self.note("break/continue")
             return [["if", self.expr("W", sc, 1), [["break" if in_loop == "break-only" else r.choice(["break", "continue"])]], []]]
